@@ -172,3 +172,14 @@ Qed.
 
 Lemma mixed_empty_units : forall val acc, mixed_unit_list val [] acc = None.
 Proof. reflexivity. Qed.
+
+(* unit_list = _mixed_unit_list on the cleaned unit list: the two theorems carry over to
+   whatever list _clean_units produces *)
+Lemma unit_list_spec : forall units value l, unit_list units value = Some l ->
+  qsum l == value /\ length l = length (clean_units units) /\ whole_but_last (clean_units units) l.
+Proof.
+  intros units value l H. unfold unit_list in H.
+  pose proof (mixed_sum _ _ _ _ H) as S. destruct (mixed_whole _ _ _ _ H) as (parts & E & L & W).
+  simpl in E. subst parts. split; [|split; assumption].
+  rewrite S. simpl. ring.
+Qed.
